@@ -66,6 +66,32 @@ DEFAULTS = [
 ]
 
 
+# constructors whose guarded `raise` statements (error cases) and stored attributes are pinned
+CHECKED = [
+    ("scico/linop/_diff.py", "SingleAxisFiniteDifference", "__init__"),
+    ("scico/linop/_dft.py", "DFT", "__init__"),
+    ("scico/linop/_circconv.py", "CircularConvolve", "__init__"),
+    ("scico/linop/_circconv.py", "CircularConvolve", "from_operator"),
+    ("scico/linop/_convolve.py", "Convolve", "__init__"),
+    ("scico/linop/_convolve.py", "ConvolveByX", "__init__"),
+    ("scico/linop/_func.py", None, "_linear_pad"),
+    ("scico/linop/_grad.py", "ProjectedGradient", "__init__"),
+    ("scico/linop/_grad.py", "PolarGradient", "__init__"),
+    ("scico/linop/_grad.py", "CylindricalGradient", "__init__"),
+    ("scico/linop/_grad.py", "SphericalGradient", "__init__"),
+    ("scico/numpy/util.py", None, "normalize_axes"),
+    ("scico/numpy/util.py", None, "slice_length"),
+    ("scico/numpy/util.py", None, "indexed_shape"),
+    ("scico/operator/_stack.py", "DiagonalReplicated", "__init__"),
+    ("scico/linop/xray/_xray.py", "XRayTransform2D", "__init__"),
+    ("scico/linop/xray/_xray.py", "XRayTransform3D", "__init__"),
+    ("scico/linop/optics.py", None, "radial_transverse_frequency"),
+    ("scico/linop/optics.py", "Propagator", "__init__"),
+    ("scico/linop/optics.py", "FraunhoferPropagator", "__init__"),
+    ("scico/linop/abel.py", "AbelTransform", "__init__"),
+]
+
+
 class Untranslatable(common.Infra):
     pass
 
@@ -127,6 +153,51 @@ def _all_list(rel):
 
 def _public_classes(rel):
     return [n.name for n in _tree(rel).body if isinstance(n, ast.ClassDef) and not n.name.startswith("_")]
+
+
+def _raises(fn):
+    """[(test source text, exception class)] for every `if <test>: raise <Exc>(...)` in source order (also `except …: raise`)"""
+    out = []
+    for n in ast.walk(fn):
+        if isinstance(n, ast.If):
+            for st in n.body:
+                if isinstance(st, ast.Raise) and st.exc is not None:
+                    exc = st.exc.func if isinstance(st.exc, ast.Call) else st.exc
+                    out.append((n.lineno, ast.unparse(n.test), ast.unparse(exc)))
+        if isinstance(n, ast.ExceptHandler):
+            for st in n.body:
+                if isinstance(st, ast.Raise) and st.exc is not None:
+                    exc = st.exc.func if isinstance(st.exc, ast.Call) else st.exc
+                    out.append((n.lineno, "except " + (ast.unparse(n.type) if n.type else ""), ast.unparse(exc)))
+    return [(t, e) for _, t, e in sorted(out)]
+
+
+def _self_attrs(fn):
+    """names X of the `self.X = …` / `self.X: T = …` statements of a constructor, in source order without repetition"""
+    out = []
+    for n in ast.walk(fn):
+        tgts = n.targets if isinstance(n, ast.Assign) else ([n.target] if isinstance(n, ast.AnnAssign) else [])
+        for t in tgts:
+            if isinstance(t, ast.Attribute) and isinstance(t.value, ast.Name) and t.value.id == "self":
+                out.append((n.lineno, t.attr))
+    res = []
+    for _, a in sorted(out):
+        if a not in res:
+            res.append(a)
+    return res
+
+
+def extract_checked():
+    raises, attrs = [], []
+    for rel, cls, fn in CHECKED:
+        where = f"{rel}:{cls or ''}.{fn}"
+        f = _function(_tree(rel), cls, fn, where)
+        name = f"{cls + '.' if cls else ''}{fn}"
+        for test, exc in _raises(f):
+            raises.append((name, test, exc))
+        if fn == "__init__":
+            attrs.append((cls, _self_attrs(f)))
+    return raises, attrs
 
 
 def extract():
@@ -194,7 +265,7 @@ def _s(x):
     return '"' + x.replace("\\", "\\\\").replace('"', '\\"') + '"'
 
 
-def render(defaults, options, constants, exported):
+def render(defaults, options, constants, exported, raises=None, attrs=None):
     L = ["/- GENERATED by harness/linops_translate.py from scico/linop/*.py, scico/linop/xray/_xray.py, scico/operator/_stack.py,",
          "   scico/operator/biconvolve.py, scico/numpy/util.py, scico/functional/_tvnorm.py (ast) — rewritten on every run, do not edit. -/",
          "import Scico.Proofs.LinOpsTables", "", "namespace Scico.Generated.LinOpsTables", "open Scico.LinOpsTables", "",
@@ -211,6 +282,14 @@ def render(defaults, options, constants, exported):
     L += ["]", "", "/-- names exported by scico.linop, scico.linop.xray and the public classes of optics.py, abel.py -/",
           "def exported : List String := [" + ", ".join(_s(e) for e in exported) + "]", "",
           "def src : Tables := ⟨defaults, options, constants, exported⟩", "",
+          "/-- error cases: (function, guard, exception class) of every `if guard: raise Exc(…)`, in source order -/",
+          "def raises : List (String × String × String) := ["] + _lines3(raises) + ["]", "",
+          "/-- attributes stored by the constructors (`self.X = …`) -/",
+          "def attrs : List (String × List String) := ["] + _lines2(attrs) + ["]", "",
+          "/-- the error cases of the modelled constructors are exactly the ones the model knows about -/",
+          "theorem raises_eq : raises = modelRaises := by decide", "",
+          "/-- every attribute the adapter / model reads from an operator is still stored by its constructor -/",
+          "theorem attrs_used : usedAttrs.all (fun ca => ((attrs.find? (fun t => t.1 = ca.1)).map (·.2)).any (fun l => ca.2.all l.contains)) = true := by decide", "",
           "/-- every default argument value of every constructor in the grid is the one the model / grid assume -/",
           "theorem defaults_eq : src.defaults = modelTables.defaults := by decide", "",
           "/-- accepted option value sets (pad modes, convolution modes, boundary flags, …) -/",
@@ -225,8 +304,23 @@ def render(defaults, options, constants, exported):
     return "\n".join(L)
 
 
+def _lines3(rows):
+    L = [f"  ({_s(a)}, {_s(b)}, {_s(c)})," for a, b, c in rows]
+    if L:
+        L[-1] = L[-1].rstrip(",")
+    return L
+
+
+def _lines2(rows):
+    L = [f"  ({_s(k)}, [{', '.join(_s(e) for e in vs)}])," for k, vs in rows]
+    if L:
+        L[-1] = L[-1].rstrip(",")
+    return L
+
+
 def generate(ctx=None):
-    text = render(*extract())
+    raises, attrs = extract_checked()
+    text = render(*extract(), raises=raises, attrs=attrs)
     OUT.parent.mkdir(parents=True, exist_ok=True)
     if not OUT.exists() or OUT.read_text() != text:
         OUT.write_text(text)
